@@ -601,15 +601,16 @@ fn execute_all(cases: Vec<Planned>, bins: Arc<Binaries>, jobs: usize) -> Result<
 /// Rust panic message prints ("thread 'main' (12345) panicked").
 fn normalised_log(o: &Observed) -> Vec<String> {
     // stderr is written in pieces; compare the record sequence without its payload, plus the whole text
+    // The panic message contains the OS thread id, whose number of digits varies, so the number and size of the
+    // stderr write records may legitimately vary under a chunking plan: stderr is compared as one text below,
+    // its records and its script counter are left out of the sequence.
     let mut out: Vec<String> = o
         .log
         .iter()
+        .filter(|l| !l.starts_with("@W w2"))
         .map(|l| {
-            if l.starts_with("@W w2") {
-                match l.find(" data=") {
-                    Some(i) => l[..i].split(" req=").next().unwrap_or("").to_string(),
-                    None => l.clone(),
-                }
+            if l.starts_with("@END") {
+                l.split(' ').filter(|t| !t.starts_with("w2=")).collect::<Vec<_>>().join(" ")
             } else {
                 l.clone()
             }
